@@ -26,7 +26,7 @@ ASSUMPTIONS = [
     "__notes__ must name the group and the model; in sequential observation every swept key and the scalar values of the failing run must appear",
 ]
 COMPONENTS = {"real": ["pyxel ModelGroup.run / observation paths / run_mode", "dask get_async error path (pack_exception / raise_exception)"], "stub": ["thread pool", "process-pool pickling of exceptions"]}
-BUDGET = {"quick": {"n": 960, "wall": 110, "determinism": 4}, "thorough": {"n": 24000, "wall": 1600, "determinism": 12}}
+BUDGET = {"quick": {"n": 960, "wall": 110, "determinism": 4}, "thorough": {"n": 36000, "wall": 1600, "determinism": 12}}
 K = {"quick": 12, "thorough": 24}
 from ..probes import EXC as _EXC  # noqa: E402
 
